@@ -85,7 +85,7 @@ class C12(UdpCheck):
             s_keep = 0.5
         cfg = {
             "mtu": rng.choice(MTUS), "entry": rng.choice(["bare", "twisted", "udpserver"]),
-            "latency": lat, "jitter": jit, "reactor_lag": rng.choice([0.0, 0.0, 0.002]),
+            "latency": lat, "jitter": jit, "reactor_lag": rng.choice([0.0, 0.0, 0.002, 0.02, 0.04]),
             "instr_cost": rng.choice([1e-6, 5e-6]),
             "server": {"interval": interval, "keep_alive": s_keep, "conn_timeout": conn_to,
                        "configure_after_construction": rng.random() < 0.5,
@@ -282,7 +282,7 @@ class C12(UdpCheck):
             t_end = cfg["cut"]["t"] if scen == "cut" else (2.9 if scen == "setters" else w.k.now)
             t_from_c = t_connected + 0.05 if scen != "setters" else 1.1
             gc = gap_check(("c0", "S"), t_from_c, t_end, eff_c_keep + dt, "client")
-            gs = gap_check(("S", "c0"), h_connect + 0.05, t_end, s_keep + max(interval, 1 / 60) + interval, "server")
+            gs = gap_check(("S", "c0"), h_connect + 0.05, t_end, s_keep + max(interval, 1 / 60) + interval + cfg["reactor_lag"], "server")
             if scen == "setters" and gc < eff_c_keep * 0.9 - 0.02 and any(a >= 1.1 for a, b in mon.gaps.get(("c0", "S"), ())):
                 # the link is idle, so the observed cadence IS the keep-alive interval in effect
                 vs.append({"kind": "setter_without_effect", "key": "keep_alive:%s" % self._when(case, "keep_alive"),
@@ -300,7 +300,7 @@ class C12(UdpCheck):
             for name, typ, msg in w.thread_exits:
                 if typ != "SimAbort":
                     vs.append({"kind": "server_thread_died", "key": typ, "detail": msg})
-            gap_check(("S", "c1"), 1.5, w.k.now, s_keep + max(interval, 1 / 60) + interval, "server")
+            gap_check(("S", "c1"), 1.5, w.k.now, s_keep + max(interval, 1 / 60) + interval + cfg["reactor_lag"], "server")
             return vs
         if scen == "outage":
             o = cfg["outage"]
